@@ -435,7 +435,13 @@ mod worker {
             // of these tasks is bounded by the transport's concurrent streams limit.
             tokio::spawn(
                 async move {
-                    let stream_h3 = match stream_quic.upgrade().await {
+                    let upgrade = tokio::select! {
+                        upgrade = stream_quic.upgrade() => upgrade,
+                        // All the application handles are gone: nobody will accept the stream
+                        () = wt_queue.closed() => return,
+                    };
+
+                    let stream_h3 = match upgrade {
                         Ok(stream_h3) => stream_h3,
                         Err(ProtoReadError::H3(error_code)) => {
                             let _ = h3_queue.send(Err(DriverError::Proto(error_code))).await;
@@ -493,7 +499,13 @@ mod worker {
                     let mut stream_h3 = stream_quic.upgrade();
 
                     let frame = loop {
-                        match stream_h3.read_frame().await {
+                        let read_frame = tokio::select! {
+                            read_frame = stream_h3.read_frame() => read_frame,
+                            // All the application handles are gone: nobody will accept the stream
+                            () = wt_queue.closed() => return,
+                        };
+
+                        match read_frame {
                             Ok(frame) => {
                                 debug!("Frame kind: {:?}", frame.kind());
                                 if !matches!(frame.kind(), FrameKind::Exercise(_)) {
